@@ -19,6 +19,8 @@ ASSUME Z0RuleMatchesRelations
 ASSUME AllRelationsWellFormed
 ASSUME NetGeneric
 ASSUME NetExistenceAsExpected
+ASSUME ShapeExistenceAsExpected
+ASSUME PatternCounts
 
 RelRows ==
     SetToSeq({[type |-> t, n |-> n, dep |-> Relation(t, n).dep,
